@@ -20,6 +20,7 @@ import vlib
 from c11_lib import gen, impl
 
 ID = "C11"
+OWN_LEANCHECKER = True  # this module runs leanchecker itself in the thorough tier
 LEAN_MODULES = ["FaxVerif.C11.Theorems"]
 LEAN_SOURCES = ["FaxVerif/C11", "FaxVerif/Generated/C11Builtins.lean"]
 DRIVER = "FaxVerif/C11/Driver.lean"
